@@ -265,6 +265,35 @@ def isortP {β : Type} (comp : β → β → Bool) : List β → List β
   | [] => []
   | x :: xs => insertP comp x (isortP comp xs)
 
+/-! ### a tighter model of libstdc++'s `std::stable_sort` (bits/stl_algo.h `__merge_sort_with_buffer`):
+runs of `_S_chunk_size` = 7 elements sorted by insertion, then adjacent runs merged (left run first on ties),
+the run length doubling until one run is left.  (The buffer juggling and the final `__merge_adaptive` of the
+two halves are merges of adjacent runs as well.)  Props proves it equal to the contract `stableSort`. -/
+
+def chunksOf {β : Type} (k : Nat) : Nat → List β → List (List β)
+  | 0, _ => []
+  | fuel + 1, l => if l.isEmpty then [] else l.take k :: chunksOf k fuel (l.drop k)
+
+def mergePairs {β : Type} (le : β → β → Bool) : List (List β) → List (List β)
+  | a :: b :: rest => List.merge a b le :: mergePairs le rest
+  | l => l
+
+def mergeRuns {β : Type} (le : β → β → Bool) : Nat → List (List β) → List β
+  | _, [] => []
+  | _, [r] => r
+  | 0, runs => runs.flatten
+  | fuel + 1, runs => mergeRuns le fuel (mergePairs le runs)
+
+def libStableSort {β : Type} (comp : β → β → Bool) (l : List β) : List β :=
+  mergeRuns (fun a b => !comp b a) l.length ((chunksOf 7 l.length l).map (isortP comp))
+
+
+/-- `NodeSorter::sort` with the libstdc++-shaped algorithm -/
+def sortNodesLib (env : Env α) (keys : List Key) (nodes : List α) : List α :=
+  if keys.isEmpty == false then
+    ((libStableSort (fun a b : Entry α => less env keys a.1 b.1) (scratch nodes)).map (·.1))
+  else nodes
+
 /-- adjacent elements: strictly ascending under `cmp`, or tied and in increasing original position -/
 def adjOk (cmp : Nat → Nat → Int) (a b : Nat) : Bool :=
   decide (cmp a b < 0) || (decide (cmp a b = 0) && decide (a < b))
@@ -289,6 +318,103 @@ def specVerdict (cmp : Nat → Nat → Int) (n : Nat) (out : List Nat) : String 
     | none => if isStableSortedPerm cmp n out then "ok" else "bad"
 
 end
+
+/-! ### the language string of each key (ElemForEach.cpp sortChildren 377-392, NodeSortKey) -/
+
+/-- as fixed (proposed/C16-sort-lang-per-key.diff): the scratch string is cleared for every xsl:sort, the lang AVT
+(if any) is evaluated into it, and the `NodeSortKey` keeps a *copy* -/
+def keyLangs (langs : List (Option String)) : List String := langs.map fun l => l.getD ""
+
+/-- as written before the fix: the scratch string is only ever assigned, never cleared, and every `NodeSortKey`
+keeps a *pointer* to it — so when the sort runs all keys read its final content -/
+def keyLangsShared (langs : List (Option String)) : List String :=
+  let final := langs.foldl (fun cur l => l.getD cur) ""
+  langs.map fun _ => final
+
+/-! ### the ICU collation functor and its collator cache
+(src/xalanc/ICUBridge/ICUBridgeCollationCompareFunctorImpl.cpp: operator() 3- and 4-argument forms 378-405,
+doDefaultCompare 186-201, doCompare(locale) 246-272, doCompareCached 276-317, doCompare(CollatorType&, …, caseOrder)
+321-349, getCachedCollator 410-446, cacheCollator 450-476; reached from NodeSorter.cpp doCollationCompare 127-150
+through StylesheetExecutionContextDefault::collationCompare).  What is modelled is *which collator settings* a
+comparison is made with; the ICU comparison itself is external. -/
+
+/-- `XalanCollationServices::eCaseOrder` -/
+inductive CaseOrder where
+  | dflt | upperFirst | lowerFirst
+deriving DecidableEq, Repr
+
+/-- value of the collator attribute UCOL_CASE_FIRST -/
+inductive CaseFirst where
+  | default_ | upperFirst | lowerFirst
+deriving DecidableEq, Repr
+
+/-- `caseOrderConvert` -/
+def caseOrderConvert : CaseOrder → CaseFirst
+  | .lowerFirst => .lowerFirst
+  | .upperFirst => .upperFirst
+  | .dflt => .default_
+
+/-- an ICU collator object: the locale it was created for and its current UCOL_CASE_FIRST -/
+structure Collator where
+  locale : String
+  caseFirst : CaseFirst
+deriving DecidableEq, Repr
+
+/-- `ICUBridgeCollationCompareFunctorImpl` (one per XalanTransformer; assumed valid: ICU could create the
+default collator and creates every requested collator) -/
+structure CollFunctor where
+  /-- `m_defaultCollatorLocaleName` -/
+  defaultLocaleName : String
+  /-- `m_defaultCollator` -/
+  defaultCollator : Collator
+  /-- `m_cacheCollators` (true for XalanTransformer and the CLI) -/
+  cacheCollators : Bool
+  /-- `m_collatorCache`, front first; at most `eCacheMax` = 10 entries -/
+  cache : List Collator
+deriving Repr
+
+def eCacheMax : Nat := 10
+
+/-- `doCompareCached`: find the collator of the locale (moving it to the front) or create and cache one
+(dropping the last entry of a full cache), then `doCompare(collator, …, caseOrder)`, which sets
+UCOL_CASE_FIRST **on the cached object** before comparing.  Returns the collator state the comparison sees. -/
+def doCompareCached (f : CollFunctor) (loc : String) (co : CaseOrder) : CollFunctor × Collator :=
+  match f.cache.find? (fun c => c.locale == loc) with
+  | some c =>
+    -- getCachedCollator: splice the entry to the front
+    let rest := f.cache.eraseP (fun c => c.locale == loc)
+    let c' : Collator := { c with caseFirst := caseOrderConvert co }
+    ({ f with cache := c' :: rest }, c')
+  | none =>
+    let c : Collator := ⟨loc, .default_⟩
+    -- cacheCollator
+    let cache1 := if f.cache.length == eCacheMax then f.cache.dropLast else f.cache
+    let c' : Collator := { c with caseFirst := caseOrderConvert co }
+    ({ f with cache := c' :: cache1 }, c')
+
+/-- `doCompare(lhs, rhs, locale, caseOrder)`: a fresh collator for this one comparison -/
+def doCompareFresh (f : CollFunctor) (loc : String) (co : CaseOrder) : CollFunctor × Collator :=
+  (f, ⟨loc, caseOrderConvert co⟩)
+
+/-- `operator()(lhs, rhs, caseOrder)` -/
+def collate3 (f : CollFunctor) (co : CaseOrder) : CollFunctor × Collator :=
+  if co == CaseOrder.dflt then (f, f.defaultCollator)          -- doDefaultCompare
+  else doCompareFresh f f.defaultLocaleName co
+
+/-- `operator()(lhs, rhs, locale, caseOrder)` -/
+def collate4 (f : CollFunctor) (loc : String) (co : CaseOrder) : CollFunctor × Collator :=
+  if co == CaseOrder.dflt && f.defaultLocaleName == loc then (f, f.defaultCollator)
+  else if f.cacheCollators == true then doCompareCached f loc co
+  else doCompareFresh f loc co
+
+/-- NodeSorter.cpp `doCollationCompare`: the key's language string selects the form -/
+def collate (f : CollFunctor) (lang : String) (co : CaseOrder) : CollFunctor × Collator :=
+  if lang.isEmpty == true then collate3 f co else collate4 f lang co
+
+/-- any sequence of comparisons (of any keys, of any number of sorts of one transformer) -/
+def collateAll : CollFunctor → List (String × CaseOrder) → List Collator
+  | _, [] => []
+  | f, (lang, co) :: rest => (collate f lang co).2 :: collateAll (collate f lang co).1 rest
 
 /-! ### collation given by a table (second correspondence stream: the strings are arbitrary Unicode, the
 table is what the library's own ICU functor answered for every pair) -/
